@@ -341,7 +341,12 @@ class VFSZip(VFS_Real):
             )
 
         # zip.open() will only return the file object in bytes mode
-        fp = self.zip.open(item)
+        try:
+            fp = self.zip.open(item)
+        except (RuntimeError, NotImplementedError, zipfile.BadZipFile) as e:
+            # An encrypted member, a compression method this Python does not
+            # implement, a damaged local header
+            raise IOError("Cannot open %s: %s" % (selector, e))
         if mode == "r":
             # Attempted to read in "text mode", so decode the bytestream
             fp = codecs.getreader("utf-8")(fp, errors=errors)
